@@ -227,3 +227,27 @@ Fixpoint nodupZb (l : list Z) : bool :=
 
 Definition inv_checkb (s : astate Qc) : bool :=
   nodupZb (map fst (st_areas s)) && Qc_eq_bool (st_total s) (vsum Qc 0%Qc Qcplus (map snd (st_areas s))) && Qc_eq_bool (st_cont s) (st_total s).
+
+(* ------------------------------------------------------------------ the published rule along a history of the dimension-wise strategy.
+   The component rules (tensor weights over the CURRENT 1D point sets) are a function of (scheme, refinement); a history is the list
+   of these schemes-with-rules, one per stop.  At each stop the driver evaluates (Accum.evaluate_dw) the contributions
+   c_l * Q_l f and the user may ask for the combined rule. *)
+Definition contributions {P} (f : P -> Qc) (scheme : list (Qc * rule P)) : list Qc :=
+  map (fun cr => (fst cr * apply_rule f (snd cr))%Qc) scheme.
+
+(* per stop: (published rule applied to f, reported value) *)
+Fixpoint dw_history {P} (f : P -> Qc) (stops : list (list (Qc * rule P))) (s : astate Qc) : list (Qc * Qc) :=
+  match stops with
+  | [] => []
+  | sch :: r => let s' := evaluate_dw Qc 0%Qc Qcplus Qcopp (contributions f sch) s in
+                (apply_rule f (combined_rule sch), st_total s') :: dw_history f r s'
+  end.
+
+(* a rule remembered from the stop at which it was first assembled (seeded defect: memoised per scheme, not per refinement) *)
+Fixpoint dw_history_memo {P} (f : P -> Qc) (memo : option (rule P)) (stops : list (list (Qc * rule P))) (s : astate Qc) : list (Qc * Qc) :=
+  match stops with
+  | [] => []
+  | sch :: r => let s' := evaluate_dw Qc 0%Qc Qcplus Qcopp (contributions f sch) s in
+                let rl := match memo with Some m => m | None => combined_rule sch end in
+                (apply_rule f rl, st_total s') :: dw_history_memo f (Some rl) r s'
+  end.
